@@ -40,6 +40,9 @@ checks["C15"] = dict(level="model_checking", text="Resolve.tla defines Resolve(t
 checks["C19"] = dict(level="model_checking", text="Args.tla states the contract as operators (Forward = identity on argument vectors, Quote = one identical argument, SplitVar at the first '=', the --init decision table). TLC enumerates every argument vector / value over a 21-character hostile alphabet within the length bounds as initial states with the expected result; every case is one invocation of the task CLI whose helper binary records the argv it received (byte comparison), or whose created file is inspected. Exhaustive within the bounds, plus hand-written longer hostile values.",
    note=CASES_NOTE + " The specification of C19 is the identity function: TLC contributes the exhaustive enumeration, not insight (DESIGN 8).", ref="DESIGN.md 4.6, 5 (C19), 8", tech="TLA+ cases specification enumerated by TLC, each case replayed through the task CLI with an argv-recording helper", engine="cli")
 
+checks["C17"] = dict(level="model_checking", text="Output.tla models the group writer (buffer, emit at close) and the prefixed writer (each completed line as four writes under the Prefixed mutex) for concurrently running commands sharing one stream; TLC checks Inv_C17 (OutputProps: the stream is a concatenation of whole blocks / every line whole, once, prefixed; nothing lost or duplicated; error_only iff failed) on every interleaving of the bounded scenarios. The same predicate is evaluated by TLC on streams recorded from the real Executor, whose Stdout is a sink that holds every Write and returns them in harness-enumerated orders; recorded write sequences are validated against Output.tla.",
+   note="Trusted: TLC, quiescence sampling, observation at Executor.Stdout with colour off; scenarios of <=3 commands x <=3 chunks.", ref="DESIGN.md 4.4, 5 (C17)", tech="TLA+ model of the output writers checked by TLC + write-order-controlled replay into the real Executor + trace validation", engine="out")
+
 ALL = ["C%02d" % i for i in range(1, 21)]
 pending = {p: "check not built yet in this round (planned, see DESIGN.md section 5)" for p in ALL if p not in checks}
 
@@ -58,6 +61,7 @@ m = {
   {"name": "load", "path": "specs/load + harness/loadfam", "serves_properties": ["C15"],
    "kind_free_text": "TLA+ functional specifications (cases models) enumerated by TLC, compared with the real loader/resolver"},
   {"name": "cli", "path": "specs/cli + harness/clifam", "serves_properties": ["C19"], "kind_free_text": "TLA+ cases specification + CLI driver with argv-recording helper"},
+  {"name": "out", "path": "specs/out + harness/outfam", "serves_properties": ["C17"], "kind_free_text": "TLA+ model of group/prefixed writers; blocking-sink replay"},
  ],
  "checks": [], "not_applicable": [], "notes": "Every check: bash /verif/run.sh <id> <quick|thorough>; replay: bash /verif/run.sh <id> --replay <file>."
 }
